@@ -5,6 +5,12 @@ sys.path.insert(0, '/verif/lib')
 import props
 
 LEVEL = {
+ "C12": ("Chain.tla composes puncture -> interleave -> (channel) -> deinterleave -> depuncture on tagged positions and states the sizes (n counted after puncturing, rate = k/n, sigma^2 = 1/(2 rate bps Eb/N0)); TLC checks on all "
+         "small patterns/shapes that the composition delivers every kept tag to its own position and ZERO elsewhere (a wrong inverse order is a negative configuration). The real BER engine is bound by trace validation through a "
+         "recording decoder injected via the public DecoderFactory: TLC checks every recorded frame (length, exact-zero positions = punctured positions, sign pattern completes to a codeword), the reported sizes for ~320 (pattern, size) "
+         "pairs, the exact bit-error accounting of scripted runs (one flipped systematic bit per error frame and nothing else), and LLR moments at 2/6 dB against a reference chain within 3-4 % bands, with sigma^2 recomputed by TLC in integer arithmetic.",
+         "TLC + Json/IOUtils; reference chain uses the public modulator/demodulator (C14) and the harness's Gaussian source; statistical bands of 10 standard errors.",
+         "TLA+ model checking of the frame pipeline on tags + trace validation of frames recorded inside real BER runs", "5 C12"),
  "C14": ("Psk.tla fixes the DVB-S2 8PSK label table (typed from EN 302 307-1 Fig. 10) and BPSK points on constellation indices; TLC verifies bijection, the Gray property, balanced bit partitions and the noiseless "
          "round trip for every bit sequence up to length 9. The real modulators/demodulators are bound by trace validation: octant index and unit energy of every modulated triple through four input memory layouts, "
          "demodulated LLRs on a polar grid / random samples / sigma 0.01..100 against the posterior computed from the spec's table (TLC checks the harness copy of the table equals the spec and evaluates the tolerance "
